@@ -12,7 +12,9 @@ import time
 import vcommon as V
 
 sys.path.insert(0, os.path.join(V.VERIF, "gen"))
+sys.path.insert(0, os.path.join(V.VERIF, "translator"))
 import C09_gen as G  # noqa
+import c09_tables as TT  # noqa
 
 
 def run_bin(binpath, lines, timeout=3000):
@@ -112,6 +114,12 @@ def run(ctx):
                        "dateTime: years of at most 9 digits (the implementation keeps years in a C int; longer years wrap "
                        "and are outside the claim); leap years computed on the numeric year, also for negative years"]
     ctx.build_lib()
+    try:
+        ctx.coverage["translator"] = TT.generate()   # Base64/HexBin decoding tables -> Gen/GenC09.v (every run)
+    except Exception as e:
+        ctx.note("translator c09_tables failed: %r" % (e,))
+        ctx.violation("translator", {"what": "translator/c09_tables.py can no longer read the decoding tables of "
+                                             "Base64.cpp / HexBin.cpp", "error": repr(e)}, no_input=True)
     ok, out, failed = ctx.prove(["Base", "Gen", "C09"],
                                 ["theories/C09/Properties_C09.vo", "theories/C09/Extract_C09.vo"],
                                 props_file="theories/C09/Properties_C09.v")
